@@ -1,5 +1,7 @@
-(* Proofs about the cumulative-count median rule of Model/Scale.v ([weighted_median]) against
-   the median of the expanded multiset of respondents' values - property C14. *)
+(* Proofs about the cumulative-count median rule of Model/Scale.v ([weighted_median], the rule
+   as repaired by dda43200: at an exact 50 % point average with the next category THAT HAS
+   COUNTS) against the median of the expanded multiset of respondents' values - property C14.
+   No side condition on where empty categories fall. *)
 From Coq Require Import QArith ZArith List Bool Lia Arith Lqa Sorted Permutation.
 From CC Require Import Base.XQ Base.ListX Spec.Stats Model.Scale.
 Import ListNotations.
@@ -17,11 +19,6 @@ Definition expand (vs : list Q) (ns : list nat) : list Q :=
 
 (* cumulative count through category k (inclusive) *)
 Definition upto (k : nat) (ns : list nat) : nat := list_sum (firstn k ns).
-
-(* the hypothesis the rule needs: whenever the categories up to k hold exactly half of the
-   respondents, the next category (in value order) is not empty *)
-Definition no_gap (ns : list nat) : Prop :=
-  forall k, S k < length ns -> 2 * upto (S k) ns = list_sum ns -> 0 < nth (S k) ns 0.
 
 (* ---- generic list facts -------------------------------------------------------------------- *)
 Lemma nth_map_lt {A B} (f : A -> B) l k d d' : k < length l -> nth k (map f l) d = f (nth k l d').
@@ -252,18 +249,6 @@ Section Rule.
         apply b_nth in L; [|lia]. congruence.
   Qed.
 
-  Lemma wm_unfold :
-    weighted_median (map cnt ns) vs =
-    if Qeq_bool (nth idx props 0%Q) (1 # 2)
-    then Fin ((nth idx vs 0 + nth (S idx) vs 0) / 2)%Q else Fin (nth idx vs 0%Q).
-  Proof.
-    unfold weighted_median. rewrite map_cnt. fold cum. fold total.
-    assert (E : Qeq_bool total 0 = false).
-    { destruct (Qeq_bool total 0) eqn:E0; [|reflexivity].
-      apply Qeq_bool_iff in E0. pose proof total_pos. lra. }
-    rewrite E. reflexivity.
-  Qed.
-
   Lemma half_test : Qeq_bool (nth idx props 0%Q) (1 # 2) = true <-> N = 2 * upto (S idx) ns.
   Proof.
     destruct idx_props as [Hi _].
@@ -274,49 +259,115 @@ Section Rule.
 
   Lemma expand_len : length (expand vs ns) = N.
   Proof. apply expand_length. exact Hlen. Qed.
+End Rule.
 
-  (* the rule agrees with the middle of the expansion when no empty category follows an
-     exact 50 % point *)
-  Lemma weighted_median_middle : no_gap ns ->
+(* ---- the exact-half branch: the next category that has counts ------------------------------- *)
+Lemma pos_test n : negb (Qle_bool (inj n) 0) = true <-> 0 < n.
+Proof.
+  rewrite negb_true_iff. split.
+  - intros H. destruct n; [|lia]. exfalso.
+    assert (E : Qle_bool (inj 0) 0 = true) by reflexivity. congruence.
+  - intros H. destruct (Qle_bool (inj n) 0) eqn:E; [|reflexivity].
+    apply Qle_bool_iff in E. change 0%Q with (inj 0) in E. apply inj_le in E. lia.
+Qed.
+
+Lemma upto_zero_run ns a d : (forall k, a <= k < a + d -> nth k ns 0 = 0) ->
+  upto (a + d) ns = upto a ns.
+Proof.
+  induction d as [|d IH]; intros H; [rewrite Nat.add_0_r; reflexivity|].
+  replace (a + S d) with (S (a + d)) by lia. rewrite upto_S, IH.
+  - rewrite (H (a + d)) by lia. lia.
+  - intros k Hk. apply H. lia.
+Qed.
+
+Lemma nth_skipn_inj ns a j : nth j (skipn a (map inj ns)) (inj 0) = inj (nth (a + j) ns 0).
+Proof. rewrite nth_skipn_add. apply map_nth. Qed.
+
+Section Repaired.
+  Variable vs : list Q.
+  Variable ns : list nat.
+  Hypothesis Hlen : length vs = length ns.
+  Hypothesis Hpos : 0 < list_sum ns.
+
+  Theorem weighted_median_middle :
     exists m, weighted_median (map cnt ns) vs = Fin m /\ (m == middle (expand vs ns))%Q.
   Proof.
-    intros Hgap. rewrite wm_unfold.
-    destruct idx_props as [Hi [Hhi Hlo]].
+    pose proof (idx_props vs ns Hlen Hpos) as Hidx.
+    pose proof (half_test vs ns Hlen Hpos) as Hhalf.
+    pose proof (total_pos vs ns Hlen Hpos) as Htot.
+    unfold weighted_median. rewrite map_cnt.
+    set (cum := cumsum (map inj ns)) in *.
+    set (total := last cum 0%Q) in *.
+    set (props := map (fun c => (c / total)%Q) cum) in *.
+    set (idx := argmax_bool (map (fun p => Qle_bool (1 # 2) p) props)) in *.
+    assert (E0 : Qeq_bool total 0 = false).
+    { destruct (Qeq_bool total 0) eqn:E0; [|reflexivity]. apply Qeq_bool_iff in E0. lra. }
+    rewrite E0.
+    destruct Hidx as [Hi [Hhi Hlo]].
     pose proof (upto_mono ns idx) as Hmono.
-    unfold middle. rewrite expand_len.
+    unfold middle. rewrite (expand_len vs ns Hlen).
     destruct (Qeq_bool (nth idx props 0%Q) (1 # 2)) eqn:Eh.
-    - (* exactly half *)
-      apply half_test in Eh.
-      assert (Hnext : S idx < length ns).
-      { destruct (Nat.lt_ge_cases (S idx) (length ns)) as [L|L]; [exact L|].
-        rewrite upto_all in Eh by lia. unfold N in *. lia. }
-      assert (Hg : 0 < nth (S idx) ns 0) by (apply Hgap; [exact Hnext|unfold N in Eh; lia]).
-      assert (Ev : Nat.even N = true).
+    - clear Eh. assert (Eh : list_sum ns = 2 * upto (S idx) ns) by (apply Hhalf; reflexivity).
+      set (bs2 := map (fun c => negb (Qle_bool c 0)) (skipn (S idx) (map inj ns))).
+      assert (Hlen2 : length bs2 = length ns - S idx).
+      { unfold bs2. rewrite map_length, skipn_length, map_length. reflexivity. }
+      assert (Hnth2 : forall j, j < length bs2 -> (nth j bs2 false = true <-> 0 < nth (S idx + j) ns 0)).
+      { intros j Hj. unfold bs2.
+        rewrite (nth_map_lt (fun c => negb (Qle_bool c 0)) _ j false (inj 0))
+          by (unfold bs2 in Hj; rewrite map_length in Hj; exact Hj).
+        rewrite nth_skipn_inj. apply pos_test. }
+      assert (Hex : existsb (fun b => b) bs2 = true).
+      { destruct (existsb (fun b => b) bs2) eqn:Ex; [reflexivity|]. exfalso.
+        assert (Hz : forall k, S idx <= k < S idx + (length ns - S idx) -> nth k ns 0 = 0).
+        { intros k Hk. destruct (nth k ns 0) as [|p] eqn:Ek; [reflexivity|]. exfalso.
+          assert (Hj : k - S idx < length bs2) by lia.
+          assert (T : nth (k - S idx) bs2 false = true).
+          { apply Hnth2; [exact Hj|]. replace (S idx + (k - S idx)) with k by lia. lia. }
+          assert (In true bs2) by (rewrite <- T; apply nth_In; exact Hj).
+          assert (existsb (fun b => b) bs2 = true) by (apply existsb_exists; exists true; auto).
+          congruence. }
+        pose proof (upto_zero_run ns (S idx) (length ns - S idx) Hz) as Hrun.
+        rewrite (upto_all ns) in Hrun by lia. lia. }
+      destruct (first_true_props bs2 Hex) as [F1 [F2 F3]].
+      assert (Ej : argmax_bool bs2 = first_true bs2).
+      { unfold argmax_bool. apply Nat.ltb_lt in F1. rewrite F1. reflexivity. }
+      fold bs2. rewrite Ej. set (j := first_true bs2) in *.
+      assert (Hnext : S idx + j < length ns) by lia.
+      assert (Hg : 0 < nth (S idx + j) ns 0) by (apply Hnth2; assumption).
+      assert (Hrun : upto (S idx + j) ns = upto (S idx) ns).
+      { apply upto_zero_run. intros k Hk.
+        destruct (nth k ns 0) as [|p] eqn:Ek; [reflexivity|]. exfalso.
+        assert (Hk2 : k - S idx < j) by lia.
+        specialize (F3 _ Hk2).
+        assert (T : nth (k - S idx) bs2 false = true).
+        { apply Hnth2; [lia|]. replace (S idx + (k - S idx)) with k by lia. lia. }
+        congruence. }
+      assert (Ev : Nat.even (list_sum ns) = true).
       { apply Nat.even_spec. exists (upto (S idx) ns). exact Eh. }
       rewrite Ev. eexists. split; [reflexivity|].
-      assert (E1 : N / 2 = upto (S idx) ns) by (rewrite Eh; apply half_even).
+      assert (E1 : list_sum ns / 2 = upto (S idx) ns) by (rewrite Eh; apply half_even).
       rewrite E1.
       rewrite (nth_expand vs ns idx (upto (S idx) ns - 1) 0%Q Hlen Hi) by lia.
-      rewrite (nth_expand vs ns (S idx) (upto (S idx) ns) 0%Q Hlen Hnext)
-        by (rewrite (upto_S ns (S idx)); lia).
+      rewrite (nth_expand vs ns (S idx + j) (upto (S idx) ns) 0%Q Hlen Hnext)
+        by (rewrite (upto_S ns (S idx + j)); lia).
       reflexivity.
-    - (* strictly more than half *)
-      assert (Hne : N <> 2 * upto (S idx) ns).
-      { intros E. apply half_test in E. congruence. }
+    - assert (Hne : list_sum ns <> 2 * upto (S idx) ns).
+      { intros E. apply Hhalf in E. discriminate. }
       eexists. split; [reflexivity|].
-      destruct (Nat.even N) eqn:Ev.
+      destruct (Nat.even (list_sum ns)) eqn:Ev.
       + apply Nat.even_spec in Ev. destruct Ev as [h Eh2].
-        assert (E1 : N / 2 = h) by (rewrite Eh2; apply half_even). rewrite E1.
+        assert (E1 : list_sum ns / 2 = h) by (rewrite Eh2; apply half_even). rewrite E1.
         rewrite (nth_expand vs ns idx (h - 1) 0%Q Hlen Hi) by lia.
         rewrite (nth_expand vs ns idx h 0%Q Hlen Hi) by lia.
         field.
-      + assert (Od : Nat.odd N = true) by (rewrite <- Nat.negb_even, Ev; reflexivity).
+      + assert (Od : Nat.odd (list_sum ns) = true) by (rewrite <- Nat.negb_even, Ev; reflexivity).
         apply Nat.odd_spec in Od. destruct Od as [h Eh2].
-        assert (E1 : N / 2 = h) by (rewrite Eh2; apply half_odd). rewrite E1.
+        assert (E1 : list_sum ns / 2 = h) by (rewrite Eh2; apply half_odd). rewrite E1.
         rewrite (nth_expand vs ns idx h 0%Q Hlen Hi) by lia.
         reflexivity.
   Qed.
-End Rule.
+End Repaired.
+
 
 (* ---- the expansion of value-sorted categories is ascending --------------------------------------- *)
 Lemma expand_In vs ns x : In x (expand vs ns) -> In x vs.
@@ -362,21 +413,15 @@ Qed.
 
 (* ---- median theorem at the level of value-sorted categories --------------------------------------- *)
 Theorem weighted_median_is_median vs ns :
-  length vs = length ns -> Sorted Qle vs -> 0 < list_sum ns -> no_gap ns ->
+  length vs = length ns -> Sorted Qle vs -> 0 < list_sum ns ->
   exists m, weighted_median (map cnt ns) vs = Fin m /\ is_median_of (expand vs ns) m.
 Proof.
-  intros Hl Hs Hp Hg.
-  destruct (weighted_median_middle vs ns Hl Hp Hg) as [m [E Em]].
+  intros Hl Hs Hp.
+  destruct (weighted_median_middle vs ns Hl Hp) as [m [E Em]].
   exists m. split; [exact E|]. split.
   - intros H0. pose proof (expand_length vs ns Hl) as L. rewrite H0 in L. simpl in L. lia.
   - exists (expand vs ns). split; [apply Permutation_refl|]. split; [|exact Em].
     apply expand_sorted. exact Hs.
-Qed.
-
-(* all valued categories non-empty is the simplest sufficient condition *)
-Lemma all_positive_no_gap ns : Forall (fun n => 0 < n) ns -> no_gap ns.
-Proof.
-  intros H k Hk _. rewrite Forall_forall in H. apply H. apply nth_In. exact Hk.
 Qed.
 
 (* nobody with a value: NaN *)
@@ -386,16 +431,6 @@ Proof.
   assert (E : Qeq_bool (last (cumsum (map inj ns)) 0%Q) 0 = true).
   { apply Qeq_bool_iff. rewrite cum_total_inj, H. reflexivity. }
   rewrite E. reflexivity.
-Qed.
-
-(* the defect: the faithful rule is NOT the median when an empty category follows the 50 % point *)
-Theorem weighted_median_refuted :
-  exists vs ns, length vs = length ns /\ Sorted Qle vs /\ 0 < list_sum ns /\
-    weighted_median (map cnt ns) vs = Fin (3 # 2) /\ (middle (expand vs ns) == 2)%Q.
-Proof.
-  exists [1; 2; 3]%Q, [2; 0; 2]. split; [reflexivity|]. split.
-  - repeat constructor; unfold Qle; simpl; lia.
-  - split; [simpl; lia|]. split; reflexivity.
 Qed.
 
 (* ---- difference vectors ----------------------------------------------------------------------------- *)
@@ -479,10 +514,10 @@ Theorem scale_median_vec_eq vals ns ord :
   valid_order vals ord = true -> length vals = length ns ->
   let vs := map (fun i => nan_to_num (vnth vals i)) ord in
   let cs := map (fun i => nth i ns 0) ord in
-  0 < list_sum cs -> no_gap cs ->
+  0 < list_sum cs ->
   exists m, scale_median_vec ord false (map cnt ns) vals = Fin m /\ is_median_of (expand vs cs) m.
 Proof.
-  intros Hv Hl vs cs Hp Hg.
+  intros Hv Hl vs cs Hp.
   destruct (valid_order_props vals ord Hv) as [_ [Hlt Hs]].
   unfold scale_median_vec, comparable.
   rewrite counts_along by (rewrite <- Hl; exact Hlt).
@@ -597,18 +632,18 @@ Proof.
 Qed.
 
 (* C14 median at respondent level: unit-weight respondents [rs] (their categories), the vector
-   is their tally; any order numpy may have chosen among equal values *)
+   is their tally; any order numpy may have chosen among equal values; empty categories may fall
+   anywhere in the value order *)
 Theorem median_eq ovals rs ord :
   let vals := map xval ovals in
   let ns := tally_nat (length ovals) rs in
   cats_below_nat (length ovals) rs ->
   valid_order vals ord = true ->
   values_of ovals rs <> [] ->
-  no_gap (map (fun i => nth i ns 0) ord) ->
   exists m, scale_median_vec ord false (map cnt ns) vals = Fin m /\
             is_median_of (values_of ovals rs) m.
 Proof.
-  intros vals ns Hc Hv Hne Hg.
+  intros vals ns Hc Hv Hne.
   destruct (valid_order_props vals ord Hv) as [Hperm _].
   assert (Hl : length vals = length ns).
   { unfold vals, ns. rewrite map_length, tally_nat_length. reflexivity. }
@@ -621,7 +656,7 @@ Proof.
       by (rewrite !map_length; reflexivity).
     destruct (expand _ _) as [|x l] eqn:E; [|simpl; lia].
     apply Permutation_nil in HP. contradiction. }
-  destruct (scale_median_vec_eq vals ns ord Hv Hl Hpos Hg) as [m [E [_ [s [P1 [P2 P3]]]]]].
+  destruct (scale_median_vec_eq vals ns ord Hv Hl Hpos) as [m [E [_ [s [P1 [P2 P3]]]]]].
   exists m. split; [exact E|]. split; [exact Hne|].
   exists s. split; [|split; assumption].
   rewrite P1. exact HP.
@@ -647,4 +682,22 @@ Proof.
   assert (HP : Permutation (flat_map (fun i => repeat (nan_to_num (vnth vals i)) (nth i ns 0)) ord) []).
   { rewrite (Permutation_flat_map _ Hperm). rewrite <- He. apply tally_values. exact Hc. }
   apply Permutation_sym, Permutation_nil in HP. rewrite HP. reflexivity.
+Qed.
+
+(* the former witness of finding C14-median-zero-count-after-half (counts 2,0,2 on the values
+   1,2,3 gave 3/2 before dda43200): now the median 2 of the respondents' values 1,1,3,3 *)
+Theorem median_former_witness :
+  let ovals := [Some 1; Some 2; Some 3]%Q in
+  let rs := [0; 0; 2; 2] in
+  cats_below_nat (length ovals) rs /\
+  valid_order (map xval ovals) [0; 1; 2] = true /\
+  tally_nat 3 rs = [2; 0; 2] /\ values_of ovals rs = [1; 1; 3; 3]%Q /\
+  scale_median_vec [0; 1; 2] false (map cnt (tally_nat 3 rs)) (map xval ovals) =x= Fin 2 /\
+  is_median_of (values_of ovals rs) 2.
+Proof.
+  cbv zeta. split; [repeat constructor|]. split; [reflexivity|]. split; [reflexivity|].
+  split; [reflexivity|]. split; [vm_compute; reflexivity|].
+  split; [discriminate|]. exists [1; 1; 3; 3]%Q. split; [apply Permutation_refl|]. split.
+  - repeat constructor; unfold Qle; simpl; lia.
+  - vm_compute. reflexivity.
 Qed.
